@@ -1,6 +1,6 @@
 import Driver.Common
 import Altrios.SpeedPoints
-namespace Driver.SPOps
+namespace Driver.OpsSP
 open Altrios Altrios.Proto Altrios.SP Driver
 
 def pt : P (Pt Float) := do let o ← float; let s ← float; pure ⟨o, s⟩
@@ -52,4 +52,4 @@ def handlers : List (String × Handler) := [
     let pts ← seq pt; let x ← float
     pure ("ok " ++ fF (val pts x)))
 ]
-end Driver.SPOps
+end Driver.OpsSP
